@@ -37,6 +37,7 @@ class Value:
         self.handled = False
 
         self._value = None
+        self._collecting = False  # True: _value is the list of several results
 
     def __getstate__(self):
         odict = self.__dict__.copy()
@@ -95,11 +96,11 @@ class Value:
         if isinstance(value, Value):
             value.parent = self
 
-        if isinstance(self._value, list):
+        if self._collecting:
             self._value.append(value)
         elif self._value is not None:
-            self._value = [self._value]
-            self._value.append(value)
+            self._value = [self._value, value]
+            self._collecting = True
         else:
             self._value = value
 
